@@ -59,6 +59,11 @@ impl CQueueLLAllocatorInner {
             Layout::from_size_align(self.page_size, self.page_size).expect("page layout invalid"),
         );
         self.pages.push(block);
+        #[cfg(petrichorit_des_verif)]
+        verif_emit(VerifAllocEvent::PageAdded {
+            addr: block as usize,
+            len: self.page_size,
+        });
         self.add_free_region(block as usize, self.page_size);
     }
 
@@ -164,6 +169,11 @@ impl Drop for CQueueLLAllocatorInner {
         let layout = Layout::from_size_align(self.page_size, self.page_size)
             .expect("failed to generate page layout");
         for page in &self.pages {
+            #[cfg(petrichorit_des_verif)]
+            verif_emit(VerifAllocEvent::PageReleased {
+                addr: *page as usize,
+                len: self.page_size,
+            });
             unsafe { alloc::dealloc(*page, layout) }
         }
     }
@@ -201,6 +211,13 @@ impl CQueueLLAllocator {
                     }
                 }
                 allocator.allocated_mem += size;
+                #[cfg(petrichorit_des_verif)]
+                verif_emit(VerifAllocEvent::Allocated {
+                    addr: alloc_start,
+                    size,
+                    requested_size: layout.size(),
+                    requested_align: layout.align(),
+                });
                 Ok(alloc_start as *mut u8)
             }
         } else {
@@ -211,7 +228,57 @@ impl CQueueLLAllocator {
     pub unsafe fn deallocate(&mut self, ptr: NonNull<u8>, layout: Layout) {
         let (size, _) = CQueueLLAllocatorInner::size_align(layout);
         let allocator = unsafe { &mut *self.inner };
+        #[cfg(petrichorit_des_verif)]
+        verif_emit(VerifAllocEvent::Deallocated {
+            addr: ptr.as_ptr() as usize,
+            size,
+        });
         allocator.allocated_mem -= size;
         allocator.add_free_region(ptr.as_ptr() as usize, size);
     }
+}
+
+// VERIF: observer for the verification harness.
+
+/// What the allocator did, reported to the observer installed with
+/// [`verif_set_alloc_observer`].
+#[cfg(petrichorit_des_verif)]
+#[derive(Debug, Clone, Copy, PartialEq, Eq)]
+pub enum VerifAllocEvent {
+    /// A new page `[addr, addr + len)` is owned by the allocator.
+    PageAdded { addr: usize, len: usize },
+    /// The page is given back to the system allocator.
+    PageReleased { addr: usize, len: usize },
+    /// `[addr, addr + size)` was handed out for a request of
+    /// `requested_size` bytes aligned to `requested_align`.
+    Allocated {
+        addr: usize,
+        size: usize,
+        requested_size: usize,
+        requested_align: usize,
+    },
+    /// `[addr, addr + size)` was given back.
+    Deallocated { addr: usize, size: usize },
+}
+
+#[cfg(petrichorit_des_verif)]
+thread_local! {
+    static VERIF_OBSERVER: std::cell::Cell<Option<fn(VerifAllocEvent)>> =
+        const { std::cell::Cell::new(None) };
+}
+
+/// Installs (or removes) the allocation observer of the current thread.
+#[cfg(petrichorit_des_verif)]
+pub fn verif_set_alloc_observer(observer: Option<fn(VerifAllocEvent)>) {
+    VERIF_OBSERVER.with(|o| o.set(observer));
+}
+
+#[cfg(petrichorit_des_verif)]
+fn verif_emit(event: VerifAllocEvent) {
+    // During thread tear-down the slot may be gone; nothing to report then.
+    let _ = VERIF_OBSERVER.try_with(|o| {
+        if let Some(f) = o.get() {
+            f(event);
+        }
+    });
 }
